@@ -176,6 +176,11 @@ class Gen:
             else:
                 elems.append({'k': 'type', 'name': mname, 'prim': prim})
         if self.hdr_variants and self.maybe(0.3):
+            for cn in ('numGroups', 'numVarDataFields'):
+                if self.maybe(0.7):
+                    elems.insert(r.randint(0, len(elems)), {'k': 'type', 'name': cn, 'prim': r.choice(UNSIGNED)})
+                    self.hit('hdr.' + cn)
+        if self.hdr_variants and self.maybe(0.3):
             self.add_offsets(elems, types)
             self.hit('hdr.custom_offsets')
         return {'k': 'composite', 'name': name, 'elems': elems}
